@@ -1815,8 +1815,15 @@ func runSketch(seed uint64) (violation string, st map[string]int64) {
 			k = hot
 		}
 		sizeBefore := s.Size()
+		saturated := s.Frequency(k) == 15 // all four counters of the key are at their maximum
 		s.Increment(k)
 		st["increments"]++
+		if saturated {
+			st["saturated_increments"]++
+			if s.Size() != sizeBefore {
+				return fmt.Sprintf("key %d has the estimate 15 (its counters are saturated), recording it changes no counter, but the sampling period advanced from %d to %d of %d: recordings that add nothing bring the aging step forward", k, sizeBefore, s.Size(), s.SampleSize()), st
+			}
+		}
 		sinceRebuild++
 		if s.Size() < sizeBefore {
 			// the sampling period ended: the sketch aged itself
